@@ -30,7 +30,13 @@ mod votor;
 use std::marker::{Send, Sync};
 use std::num::NonZeroU64;
 use std::sync::Arc;
-use std::time::{Duration, Instant};
+use std::time::Duration;
+#[cfg(not(feature = "verif-hooks"))]
+use std::time::Instant;
+
+// with the verification hooks the node's timers read tokio's clock, which a test harness can pause
+#[cfg(feature = "verif-hooks")]
+use tokio::time::Instant;
 
 use anyhow::Result;
 use fastrace::Span;
